@@ -49,6 +49,15 @@ fn gen_doc(ch: &mut Ch, out: &mut CaseOut) -> DigDoc {
     cfg.max_depth = 2;
     cfg.max_block = 4;
     let mut sigs = gen_signals(ch, &cfg);
+    // now and then a pin is labelled like one of the attribute keys of the file format
+    if ch.chance(1, 8) {
+        let i = ch.upto(sigs.len());
+        let l = ["Bits", "InDefault", "Label", "Testdata", "isHighZ", "Value"][ch.upto(6)];
+        if !sigs.iter().any(|s| s.name == l) {
+            out.class("pin-labelled-like-an-attribute-key");
+            sigs[i].name = l.to_string();
+        }
+    }
     let mut elements: Vec<Element> = vec![];
     for s in &sigs {
         let (kind, default) = match s.kind {
@@ -107,7 +116,7 @@ fn gen_doc(ch: &mut Ch, out: &mut CaseOut) -> DigDoc {
     }
     // tests
     let ntests = ch.upto(4);
-    let labels = ["T1", "main", "T1", "a & b <test>", "é"];
+    let labels = ["T1", "main", "T1", "a & b <test>", "é", "Testdata", "Label"];
     for k in 0..ntests {
         let label = if ch.chance(1, 5) { None } else { Some(labels[ch.upto(labels.len())].to_string()) };
         let source = match ch.weighted(&[6, 2, 1, 1]) {
@@ -353,7 +362,7 @@ impl Property for C16 {
         "C16"
     }
     fn rule(&self) -> &'static str {
-        "profile `dig`: generated circuit descriptions - pins (In/Clock/Out, labelled or not, Bits or none, InDefault value / z=\"true\" / none), labelled non-pin elements (Probe, And, Tunnel, Text, ...), 0-3 tests (label or none, duplicate labels, XML-special characters; source = generated program fitted to the pins with random layout, or free text behind a legal header, or headers naming nothing / X_out with no X / <output>_out, or no header line) - rendered in Digital's XStream shape with shuffled attribute entries and XML escaping; label patterns around _out (an Out pin, or an In / Clock pin, labelled C_out next to In pin C); duplicate pin labels; plus 1-3 corruptions (character / line / tag deletion, truncation, renamed keys, emptied text nodes, junk) of rendered documents and of the repository's five fixtures. Oracle: never a panic; uncorrupted documents with legal headers must load; when an uncorrupted document loads, signals == exactly the labelled pins as a multiset (kind, width, default), bidirectional only under the stated condition, tests == (label, source) in document order; for every loaded file load_test(i) == parse(source i) + with_signals(file.signals) (equal TestCase, or same error kind and message), load_test_by_name == load_test(first index with that label), out-of-range index and unknown name are errors. Non-trivial: >= 3 labelled pins and >= 1 test, or an _out pattern, or a corruption that still loads; distinct by document text."
+        "profile `dig`: generated circuit descriptions - pins (In/Clock/Out, labelled or not, Bits or none, InDefault value / z=\"true\" / none), labelled non-pin elements (Probe, And, Tunnel, Text, ...), 0-3 tests (label or none, duplicate labels, XML-special characters; source = generated program fitted to the pins with random layout, or free text behind a legal header, or headers naming nothing / X_out with no X / <output>_out, or no header line) - rendered in Digital's XStream shape with shuffled attribute entries and XML escaping; label patterns around _out (an Out pin, or an In / Clock pin, labelled C_out next to In pin C); duplicate pin labels; pins and tests labelled like the format's own attribute keys (Bits, InDefault, Label, Testdata, ...); plus 1-3 corruptions (character / line / tag deletion, truncation, renamed keys, emptied text nodes, junk) of rendered documents and of the repository's five fixtures. Oracle: never a panic; uncorrupted documents with legal headers must load; when an uncorrupted document loads, signals == exactly the labelled pins as a multiset (kind, width, default), bidirectional only under the stated condition, tests == (label, source) in document order; for every loaded file load_test(i) == parse(source i) + with_signals(file.signals) (equal TestCase, or same error kind and message), load_test_by_name == load_test(first index with that label), out-of-range index and unknown name are errors. Non-trivial: >= 3 labelled pins and >= 1 test, or an _out pattern, or a corruption that still loads; distinct by document text."
     }
     fn cases(&self, tier: Tier) -> u64 {
         match tier {
@@ -365,7 +374,7 @@ impl Property for C16 {
         [500, 60, 40]
     }
     fn required_classes(&self) -> Vec<&'static str> {
-        vec!["uncorrupted", "corrupted-generated", "corrupted-fixture", "load:ok", "load:err", "bidirectional-inferred", "pin-labelled-x_out-next-to-input-x", "input-pin-labelled-x_out-next-to-input-x", "header-names-outside-the-circuit", "corruption-still-loads", "strict-document", "duplicate-test-label"]
+        vec!["uncorrupted", "corrupted-generated", "corrupted-fixture", "load:ok", "load:err", "bidirectional-inferred", "pin-labelled-x_out-next-to-input-x", "input-pin-labelled-x_out-next-to-input-x", "pin-labelled-like-an-attribute-key", "header-names-outside-the-circuit", "corruption-still-loads", "strict-document", "duplicate-test-label"]
     }
     fn check_raw(&self, _kind: &str, data: &[u8]) -> Option<(String, String)> {
         crate::fuzzglue::dig_bytes_kv(data)
